@@ -41,6 +41,25 @@ def _lemmas():
                     z3.And(((x & y) == 1) == z3.And(x == 1, y == 1), ((x | y) == 1) == z3.Or(x == 1, y == 1),
                            ((x ^ y) == 1) == z3.Xor(x == 1, y == 1),
                            z3.ULE(x & y, 1), z3.ULE(x | y, 1), z3.ULE(x ^ y, 1))))
+        # general constant mask = sum over its runs of set bits: ((x >> lo) mod 2^len) << lo   (>> arithmetic or logical:
+        # the runs lie below the sign bit)
+        for c in ((0x60, 0x06) if w == 8 else (0x180, 0x7F80, 0x0F0F)):
+            rs, k = zero, 0
+            ru = zero
+            while (1 << k) <= c:
+                if c & (1 << k):
+                    lo = k
+                    while c & (1 << k):
+                        k += 1
+                    ln = k - lo
+                    rs = rs + (z3.URem(x >> lo, z3.BitVecVal(1 << ln, w)) << lo)
+                    ru = ru + (z3.URem(z3.LShR(x, lo), z3.BitVecVal(1 << ln, w)) << lo)
+                else:
+                    k += 1
+            out.append(("and-mask-runs[w=%d,mask=%#x]" % (w, c), [], z3.And((x & c) == rs, (x & c) == ru)))
+        for k in (1, 5, w - 2):
+            out.append(("or-disjoint[w=%d,k=%d]" % (w, k), [z3.URem(x, z3.BitVecVal(1 << k, w)) == 0, z3.ULT(y, z3.BitVecVal(1 << k, w))],
+                        z3.And((x | y) == x + y, z3.UGE(x + y, x))))
         for k in (1, w - 2):    # 2^k must be a positive signed value at this width
             out.append(("ashr-is-floor-div[w=%d,k=%d]" % (w, k), [],
                         (x >> k) == z3.If((x % (1 << k)) == 0, x / (1 << k),
